@@ -58,3 +58,21 @@ pub fn search() -> Value {
     }
     json!({"violates": false, "evaluated": n})
 }
+
+/// bucket-names: names valid under the complete S3 bucket naming rules must be accepted by both request-target parsers, names that
+/// break the core rules refused
+pub fn bucket_names() -> Value {
+    let l63 = "a".repeat(63); let l64 = "a".repeat(64);
+    let valid: Vec<&str> = vec!["abc", "my.bucket-01", "0start.9end", "a-b", "www.xn--bcher-kva.example", "files.xn--80ak6aa92e.com", "a.b.xn--c", "x.xn--y", "axn--b", "a.1.2", "1.2.3", "1.2.3.4.5", "999.1.1.1a", l63.as_str()];
+    let invalid: Vec<&str> = vec!["ab", l64.as_str(), "Abc", "-abc", "abc-", ".abc", "abc.", "a..b", "192.168.1.1", "1.2.3.4", "xn--abc", "xn--a.b", "a_b", "a b", "ab\u{e9}"];
+    let mut all = Vec::new(); let mut first_bad: Option<String> = None;
+    for (name, want) in valid.iter().map(|n| (*n, true)).chain(invalid.iter().map(|n| (*n, false))) {
+        let ps = matches!(view(parse_path_style(&format!("/{name}/k"))), D::Object(..));
+        let vh = matches!(view(parse_virtual_hosted_style(Some(name), "/k")), D::Object(..));
+        let ok = ps == want && vh == want;
+        all.push(json!({"bucket": name, "valid": want, "path_style_accepts": ps, "virtual_hosted_style_accepts": vh, "ok": ok}));
+        if !ok && first_bad.is_none() { first_bad = Some(name.to_owned()); }
+    }
+    json!({"violates": first_bad.is_some(), "input": {"first_failing_name": first_bad}, "expected": "valid names accepted, names breaking the core rules refused, identically in both styles",
+           "observed": all, "replay_args": ["bucket-names"]})
+}
